@@ -77,6 +77,7 @@ pub fn with<R>(f: impl FnOnce(&mut Ctx) -> R) -> R {
 
 /// Reset the context for a new simulated execution and return the old one.
 pub fn reset() -> Ctx {
+    crate::sync_mutex::clear_deferred();
     CTX.with(|c| std::mem::take(&mut *c.borrow_mut()))
 }
 
